@@ -648,6 +648,74 @@ func (c *Ctx) cod4() {
 		}
 	}
 	b4.done(1, "iterations with shift 0, 7, 14 and 21 read a byte and may end the decode")
+	// the byte is split at bit 7: seven value bits, one continuation bit
+	mk := c.acc("COD-4", pp, "length-byte=7-value-bits+continuation-bit")
+	val7, contBit := false, false
+	for _, b := range pp.Blocks {
+		for _, ins := range b.Instrs {
+			bo, ok := ins.(*ssa.BinOp)
+			if !ok {
+				continue
+			}
+			// (b & 0x7f) << shift
+			if bo.Op == token.SHL && stripConv(bo.Y) == ssa.Value(shift) {
+				if and, ok := stripConv(bo.X).(*ssa.BinOp); ok && and.Op == token.AND && isK(and.Y, 0x7f) {
+					val7 = true
+				}
+			}
+			// b & 0x80 == 0
+			if (bo.Op == token.EQL || bo.Op == token.NEQ) && isK(bo.Y, 0) {
+				if and, ok := stripConv(bo.X).(*ssa.BinOp); ok && and.Op == token.AND && isK(and.Y, 0x80) {
+					contBit = true
+				}
+			}
+			if bo.Op == token.AND {
+				if k, ok := intConst(bo.Y); ok && k != 0x7f && k != 0x80 && bo.Block().Parent() == pp {
+					if _, fromRead := stripConv(bo.X).(*ssa.Extract); fromRead {
+						mk.failAt(c.P.Pos(bo.Pos()), "a length byte is masked with %#x: the remaining length is seven value bits (0x7f) and the continuation bit (0x80)", k)
+					}
+				}
+			}
+		}
+	}
+	if val7 && contBit {
+		mk.pass()
+	} else {
+		mk.failAt(c.P.Pos(shift.Pos()), "the decode does not take (b & 0x7f) << shift as the value (%v) and b & 0x80 as the continuation test (%v)", val7, contBit)
+	}
+	mk.done(1, "value bits 0x7f shifted by the induction variable; continuation test on 0x80")
+	// a PUBLISH is a BigMessage exactly when it does not fit the read buffer
+	bg := c.acc("COD-4", pp, "BigMessage⇔size>buffer-size")
+	nb := 0
+	for _, b := range pp.Blocks {
+		for _, ins := range b.Instrs {
+			bo, ok := ins.(*ssa.BinOp)
+			if !ok {
+				continue
+			}
+			isSize := func(v ssa.Value) bool {
+				call, ok := stripConv(v).(*ssa.Call)
+				return ok && call.Call.StaticCallee() != nil && stdName(call.Call.StaticCallee()) == "(*bufio.Reader).Size"
+			}
+			switch {
+			case isSize(bo.Y) && !isSize(bo.X):
+				nb++
+				if bo.Op == token.GTR {
+					bg.pass()
+				} else {
+					bg.failAt(c.P.Pos(bo.Pos()), "the packet size is compared with the buffer size by %s, want >: a packet of exactly the buffer size fits and must be served whole", bo.Op)
+				}
+			case isSize(bo.X) && !isSize(bo.Y):
+				nb++
+				if bo.Op == token.LSS {
+					bg.pass()
+				} else {
+					bg.failAt(c.P.Pos(bo.Pos()), "the buffer size is compared with the packet size by %s, want <", bo.Op)
+				}
+			}
+		}
+	}
+	bg.done(1, "size > c.bufr.Size()")
 	a.done(1, "the loop continues only while shift ≤ 14, so at most four length bytes are read")
 }
 
